@@ -4,7 +4,7 @@
 (* declarations (C12: "well-formed" is what the documentation says a       *)
 (* command takes).  MC_Decl.Decl is generated from the live classes,       *)
 (* MC_DocDecl.DocDecl from docs/user/lib-eems-*.rst:                       *)
-(*   << <<command, << <<parameter, kind word, required>>, ... >> >>, ... >> *)
+(*   << <<command, << <<parameter, kind word, required>>, ... >>, fuzziness of the result or "">>, ... >> *)
 (* A parameter the documentation and the code both know must be optional   *)
 (* in the code iff the documentation marks it *Optional*, and of the       *)
 (* documented kind; otherwise a model written from the documentation is    *)
@@ -24,9 +24,11 @@ RequiredDiffers == {<<DocDecl[km[1]][1], DocDecl[km[1]][2][km[2]][1]>> : km \in 
 KindDiffers == {<<DocDecl[km[1]][1], DocDecl[km[1]][2][km[2]][1]>> : km \in {km \in Both :
                         KindWord(Cfg(D(DocDecl[km[1]][1]), DocDecl[km[1]][2][km[2]][1])) # DocDecl[km[1]][2][km[2]][2]}}
 Undeclared == {DocDecl[k][1] : k \in {k \in 1..Len(DocDecl) : DocDecl[k][1] \notin DeclNames}}
+\* where the fuzziness of a command's result is stated (third field; "" = not stated) it is the declared one
+FuzzDiffers == {DocDecl[k][1] : k \in {k \in 1..Len(DocDecl) : DocDecl[k][3] # "" /\ DocDecl[k][1] \in DeclNames /\ Fuzz(D(DocDecl[k][1])) # DocDecl[k][3]}}
 
 VARIABLE x
-Init == x = 0 /\ PrintT(<<"REQUIRED", SetToSeq(RequiredDiffers)>>) /\ PrintT(<<"KIND", SetToSeq(KindDiffers)>>) /\ PrintT(<<"UNDECLARED", SetToSeq(Undeclared)>>)
+Init == x = 0 /\ PrintT(<<"REQUIRED", SetToSeq(RequiredDiffers)>>) /\ PrintT(<<"KIND", SetToSeq(KindDiffers)>>) /\ PrintT(<<"UNDECLARED", SetToSeq(Undeclared)>>) /\ PrintT(<<"FUZZ", SetToSeq(FuzzDiffers)>>)
 Next == UNCHANGED x
-DocsAgree == RequiredDiffers = {} /\ KindDiffers = {} /\ Undeclared = {}
+DocsAgree == RequiredDiffers = {} /\ KindDiffers = {} /\ Undeclared = {} /\ FuzzDiffers = {}
 =============================================================================
